@@ -4,10 +4,17 @@
   verbatim with the engine's lines on every run); the mate arithmetic (`mate N` is never 0 for an
   evaluation inside the mate bands, cp lines stay strictly inside the bands); only the root emits
   lines (the inner search is silent); the first PV entry of an accepted line is the accepted root
-  move's descriptor.  Not proved (decided by the sweep over every cut point): that accepted
-  evaluations always lie in [-(MATE-2), MATE-1] (needs the value-range invariant of alpha-beta).
+  move's descriptor; and — `scores_in_range`, `chess_scores_in_range` — the value-range invariant
+  of the WHOLE search (every depth: null-move pruning, re-searches, check extension, repetition
+  draws, any clock expiry, any ordering oracle): every score on an info line lies in
+  [-(MATE-2), MATE-1], at every point of the run and whatever its outcome; so the abort sentinel
+  is never printed, `mate N` is never `mate 0`, and `cp` values are inside the bands.
+  Supporting: `value_in_range_or_aborted` (every alpha-beta call returns a value in [-MATE, MATE]
+  or, only after the clock said "out of time", the sentinel) and `value_ply_exact`.
 -/
 import Walleye.Proofs.Reports
+import Walleye.Proofs.RootRange
+import Walleye.Proofs.ChessGameOK
 import Walleye.Model.SearchChess
 namespace Walleye
 
@@ -61,5 +68,41 @@ theorem mate_distance_bounded (e : Int) (h1 : e ≥ Gen.mateScore - Gen.mateWind
 theorem only_root_reports {P O : Type} (g : Game P) (ord : Oracle P O) (fuel : Nat) (p : P) (d ply : Nat)
     (a b : Int) (n : Bool) (s : SS P O) :
     (outState (alphaBeta g ord fuel p d ply a b n s)).reports = s.reports := alphaBeta_silent g ord fuel p d ply a b n s
+
+/-- every alpha-beta call entered with a window overlapping [-MATE, MATE] returns a value in that
+    range or — only in a state whose clock has expired — the sentinel ±POS_INF (every depth) -/
+theorem value_in_range_or_aborted {P O : Type} (g : Game P) (ord : Oracle P O) (E : Nat)
+    (hE : ∀ p, -(E : Int) ≤ g.eval p ∧ g.eval p ≤ E) (hEm : (E : Int) ≤ Gen.mateScore) (fuel : Nat) :
+    ChildR (alphaBeta g ord fuel) := alphaBeta_range g ord E hE hEm fuel
+
+/-- as long as the clock has not expired, a node at `ply` with window (a, b) returns a value in
+    [min b (-(MATE - ply)), max a (MATE - ply - 1)] (every depth) -/
+theorem value_ply_exact {P O : Type} (g : Game P) (ord : Oracle P O) (E : Nat)
+    (hE : ∀ p, -(E : Int) ≤ g.eval p ∧ g.eval p ≤ E)
+    (hEp : (E : Int) + arrSize + Gen.nullPlyJump + 1 ≤ Gen.mateScore) (fuel : Nat) :
+    ChildF (alphaBeta g ord fuel) := alphaBeta_fine g ord E hE hEp fuel
+
+/-- every reported score is in [-(MATE-2), MATE-1]: any game with a bounded evaluation -/
+theorem scores_in_range {P O : Type} (g : Game P) (ord : Oracle P O) (E : Nat)
+    (hE : ∀ p, -(E : Int) ≤ g.eval p ∧ g.eval p ≤ E)
+    (hEp : (E : Int) + arrSize + Gen.nullPlyJump + 1 ≤ Gen.mateScore) (fuel : Nat) (root : P) (s : SS P O)
+    (hs : s.reports = #[]) :
+    ∀ i, Report.info i ∈ (outState (getBestMove g ord fuel root s)).reports.toList →
+      -(Gen.mateScore - 2) ≤ i.eval ∧ i.eval ≤ Gen.mateScore - 1 :=
+  getBestMove_scores_in_range g ord E hE hEp fuel root s (by intro i hi; rw [hs] at hi; cases hi)
+
+/-- the chess instance (evaluation bound 70 400 of C14): every score the engine model reports -/
+theorem chess_scores_in_range {O : Type} (h : Hasher) (ord : Oracle Pos O) (fuel : Nat) (root : Pos)
+    (s : SS Pos O) (hs : s.reports = #[]) :
+    ∀ i, Report.info i ∈ (outState (getBestMove (chessGame h) ord fuel root s)).reports.toList →
+      -(Gen.mateScore - 2) ≤ i.eval ∧ i.eval ≤ Gen.mateScore - 1 :=
+  scores_in_range (chessGame h) ord 70400 (chess_gameOK (h := h)).evalB (by decide) fuel root s hs
+
+/-- hence no printed mate distance is 0 and every one is at most 8 moves, both signs -/
+theorem printed_mate_distance (e : Int) (hr : -(Gen.mateScore - 2) ≤ e ∧ e ≤ Gen.mateScore - 1) :
+    (e ≥ Gen.mateScore - Gen.mateWindow → 1 ≤ Int.tdiv (Gen.mateScore - e + 1) 2 ∧ Int.tdiv (Gen.mateScore - e + 1) 2 ≤ 8) ∧
+    (e ≤ -Gen.mateScore + Gen.mateWindow → Int.tdiv (Gen.mateScore + e) (-2) ≤ -1) :=
+  ⟨fun h => ⟨mate_nonzero_pos e h hr.2, mate_distance_bounded e h hr.2⟩,
+   fun h => mate_nonzero_neg e h hr.1⟩
 
 end Walleye
